@@ -60,6 +60,7 @@ struct Item {
     mp: MultiPolygon<f64>,
     touch: i64,
     general: bool,
+    stress: bool,
 }
 
 pub fn record(pool_paths: &str, w: &mut dyn Write, seed: u64, n_events: usize) {
@@ -68,8 +69,9 @@ pub fn record(pool_paths: &str, w: &mut dyn Write, seed: u64, n_events: usize) {
         let f = BufReader::new(std::fs::File::open(path).expect("open pool"));
         for line in f.lines() {
             let v: Value = serde_json::from_str(&line.unwrap()).unwrap();
+            let stress = v["k"] == "monostress";
             let (g, touch, general) = if v.get("g").is_some() {
-                (gj::parse(&v["g"]), v["touch"].as_i64().unwrap_or(0), false)
+                (gj::parse(&v["g"]), v["touch"].as_i64().unwrap_or(0), stress)
             } else if v["op"] == "poly" {
                 // Gen_Poly case: general-slope lattice polygon, holes never touch anything
                 // (scaled by 2 - exact - so that the fine-lattice query points also fall between its vertices)
@@ -78,14 +80,15 @@ pub fn record(pool_paths: &str, w: &mut dyn Write, seed: u64, n_events: usize) {
                 continue;
             };
             if let Some(mp) = as_mp(&g) {
-                items.push(Item { mp, touch, general });
+                items.push(Item { mp, touch, general, stress });
             }
         }
     }
     assert!(!items.is_empty(), "empty pool");
     // (scale-down maps are excluded: the Delaunay routines snap points closer than the documented snap radius)
     let has_both = items.iter().any(|i| i.general) && items.iter().any(|i| !i.general);
-    let multi: Vec<usize> = (0..items.len()).filter(|i| items[*i].mp.0.iter().any(|p| p.interiors().len() >= 2)).collect();
+    let multi: Vec<usize> = (0..items.len()).filter(|i| !items[*i].stress && items[*i].mp.0.iter().any(|p| p.interiors().len() >= 2)).collect();
+    let stress: Vec<usize> = (0..items.len()).filter(|i| items[*i].stress).collect();
     let mut rng = StdRng::seed_from_u64(seed ^ 0xC10);
     let maps: Vec<ExactMap> = exact_maps().into_iter().filter(|m| !m.name.starts_with("scale_2m") && m.name != "shear_huge").collect();
     let mut emitted = 0usize;
@@ -95,7 +98,8 @@ pub fn record(pool_paths: &str, w: &mut dyn Write, seed: u64, n_events: usize) {
         let want_general = k % 3 == 2;
         // every fourth polygon has at least two holes (hole bookkeeping of the triangulators), if the pools have any
         let want_multi = k % 4 == 3 && !multi.is_empty();
-        let it = if want_multi { &items[multi[rng.gen_range(0..multi.len())]] } else { loop {
+        let want_stress = k % 6 == 1 && !stress.is_empty();
+        let it = if want_stress { &items[stress[rng.gen_range(0..stress.len())]] } else if want_multi { &items[multi[rng.gen_range(0..multi.len())]] } else { loop {
             let c = &items[rng.gen_range(0..items.len())];
             if c.general == want_general || !has_both { break c; }
         } };
@@ -195,16 +199,19 @@ fn exec_all(w: &mut dyn Write, a: &MultiPolygon<f64>, touch: i64, general: bool,
                 emitted += 1;
             }
         }
-        // ---- monotone subdivision: the pieces, and point location for every fine-lattice point (-1..13)^2
+        // ---- monotone subdivision: the pieces, and point location on a 15 x 15 grid of lattice points starting at (-1,-1) whose step
+        // is chosen so that the grid covers the polygon (step 1: every fine-lattice point of -1..13)
         {
+            let ext_max = a.0.iter().flat_map(|p| p.exterior().0.iter()).fold(0f64, |m, c| m.max(c.x).max(c.y));
+            let step: i64 = if ext_max <= 13.0 { 1 } else { ((ext_max + 2.0) / 14.0).ceil() as i64 };
             let r = guard(|| {
                 let pieces = monotone_subdivision(ma.0.clone());
                 let idx: MonotonicPolygons<f64> = if single && k % 2 == 0 { ma.0[0].clone().into() } else { ma.clone().into() };
                 let fwd = |c: Coord<f64>| match mi { Some(m) => m.apply(c), None => c };
                 let mut hits = Vec::with_capacity(225);
-                for x in -1..=13 {
-                    for y in -1..=13 {
-                        hits.push(if idx.intersects(&fwd(Coord { x: x as f64, y: y as f64 })) { 1 } else { 0 });
+                for i in 0..15 {
+                    for j in 0..15 {
+                        hits.push(if idx.intersects(&fwd(Coord { x: (-1 + step * i) as f64, y: (-1 + step * j) as f64 })) { 1 } else { 0 });
                     }
                 }
                 (pieces, hits)
@@ -214,9 +221,9 @@ fn exec_all(w: &mut dyn Write, a: &MultiPolygon<f64>, touch: i64, general: bool,
                     let mut bad = false;
                     let jpieces: Vec<Value> = pieces.iter().map(|m| json!({"top": ring_json(m.top(), &*back, false, &mut bad), "bot": ring_json(m.bot(), &*back, false, &mut bad)})).collect();
                     // x-monotonicity is a statement about the mapped coordinates: logged for the identity map only
-                    json!({"ev":"mono","p":jp,"pieces":jpieces,"hits":hits,"xmono": mi.is_none(),"st":st(bad),"note":note,"rand":rand})
+                    json!({"ev":"mono","p":jp,"pieces":jpieces,"hits":hits,"step":step,"xmono": mi.is_none(),"st":st(bad),"note":note,"rand":rand})
                 }
-                Err(e) => json!({"ev":"mono","p":jp,"pieces":[],"hits":[],"xmono":false,"st":"panic","note":format!("{note} {e}"),"rand":rand}),
+                Err(e) => json!({"ev":"mono","p":jp,"pieces":[],"hits":[],"step":step,"xmono":false,"st":"panic","note":format!("{note} {e}"),"rand":rand}),
             };
             writeln!(w, "{ev}").unwrap();
             emitted += 1;
